@@ -651,6 +651,24 @@ func oracleC07op(r *OpRun) {
 	}
 }
 
+// oracleC07adjacent (M7): when a head task is executed, the task right behind it is not one that should
+// have been merged: a HookRun task of the same hook that had been queued at an earlier simulated instant
+// than the start of the execution. (The merge runs at the instant the execution starts; picking, merging
+// and starting take no simulated time, waiting for the rate limiter does.)
+func oracleC07adjacent(r *OpRun) {
+	for _, x := range r.o.Execs {
+		if x.NextSameHookQueuedAt == 0 || len(x.Ctxs) == 0 || isWebhookExec(x) {
+			continue
+		}
+		if x.Ctxs[0].Type == "Synchronization" {
+			continue // an ungrouped Synchronization is executed on its own
+		}
+		if x.NextSameHookQueuedAt < x.Start {
+			r.e.Viol("C07", "M7", "adjacent-task-not-merged", "execution #%d of %s started at %v with {%s} while the next task of queue %q, queued at %v, is a task of the same hook", x.N, x.Hook, x.Start, strings.Join(identities(x), "; "), x.QueueSeen, x.NextSameHookQueuedAt)
+		}
+	}
+}
+
 // oracleC07sync (M6): merging never swallows contexts. Every kubernetes binding with a Synchronization
 // to deliver receives it - as its own Synchronization context or, for a grouped binding, as a Group
 // context of its group - in some successful execution, also when the task in front of it in the queue
@@ -1155,6 +1173,9 @@ func oracleC17(r *OpRun, calledAt, returnedAt time.Duration) {
 		q := r.o.Op.TaskQueues.GetByName(qn)
 		if q == nil {
 			continue
+		}
+		if sts := r.obs.QStatus[qn]; len(sts) > 0 && sts[len(sts)-1].Status == "run first task" {
+			continue // a handler (e.g. one that waits for a slow API answer) is still running: the worker stops when it returns
 		}
 		if st := q.GetStatus(); st != "stop" {
 			r.e.Viol("C17", "H2", "worker-not-stopped", "queue %q has status %q after shutdown although no handler is running", qn, st)
